@@ -54,3 +54,15 @@ def log_call(logname, rec, fields, params=None, defaults=None):
         return NONE
     handler.mutates = (logname,)
     return handler
+
+
+def read_field(root):
+    """handler for a call that only reads a boolean flag modelled as the self
+    field `root` (e.g. self._terminate.is_set() -> self._terminating)"""
+    def handler(ex, node, st):
+        v = ex.get_var(st, root)
+        if v is None:
+            raise SpecError('%s not declared' % root)
+        return v
+    handler.mutates = ()
+    return handler
